@@ -10,9 +10,14 @@ FORBIDDEN = re.compile(r'\bsorry\b|\badmit\b|^\s*axiom\s|native_decide|bv_decide
 
 
 class Lock:
+    """builds take the lock exclusively; audits and leanchecker runs (readers of the build products) share it"""
+
+    def __init__(self, shared=False):
+        self.shared = shared
+
     def __enter__(self):
-        self.f = open(os.path.join(LEAN_DIR, '.build.lock'), 'w')
-        fcntl.flock(self.f, fcntl.LOCK_EX)
+        self.f = open(os.path.join(LEAN_DIR, '.build.lock'), 'a')
+        fcntl.flock(self.f, fcntl.LOCK_SH if self.shared else fcntl.LOCK_EX)
         return self
 
     def __exit__(self, *a):
@@ -102,13 +107,14 @@ def theorems_in(module):
 def audit(module, theorems):
     """#print axioms for each theorem; returns dict name -> sorted axiom list, or None if missing/failed"""
     body = 'import %s\n' % module + ''.join('#print axioms %s\n' % t for t in theorems)
-    tag = hashlib.sha1(body.encode()).hexdigest()[:10]
-    fn = os.path.join(LEAN_DIR, '.lake', 'audit_%s.lean' % tag)
+    tag = '%s_%d_%d' % (hashlib.sha1(body.encode()).hexdigest()[:10], os.getpid(), int(time.time() * 1e6) % 10**9)
+    fn = os.path.join(LEAN_DIR, '.lake', 'audit_%s.lean' % tag)     # unique per process: checks may run in parallel
     os.makedirs(os.path.dirname(fn), exist_ok=True)
     with open(fn, 'w') as f:
         f.write(body)
     try:
-        rc, out = _run(['lake', 'env', 'lean', fn])
+        with Lock(shared=True):
+            rc, out = _run(['lake', 'env', 'lean', fn])
     finally:
         try:
             os.unlink(fn)
